@@ -777,6 +777,11 @@ class Program:
                     ch[(b.crate, b.parent)].append(b)
             self._children = ch
         own = self._children.get((body.crate, body.path), [])
+        spl = getattr(body, "spliced_closures", None)
+        if spl:
+            # closures whose body lib.inline spliced into this function (`c.then(|| e)` spelled out as if/else): their
+            # statements are this function's now; closures nested in them belong to it as well
+            own = [c for c in own if c.path not in spl] + [g for nm in spl for g in self._children.get((body.crate, nm), [])]
         if getattr(body, "inlined", None):
             # closures built by statements spliced in from a helper (lib.inline) belong to this body as well
             extra = []
@@ -1028,6 +1033,10 @@ def origins(body, op, depth=14, _seen=None):
         for o in origins(body, {"k": "copy", "p": {"l": l, "proj": [], "ty": ""}}, depth - 1, _seen):
             if o[0] == "place":
                 out.append(("place", o[1], tuple(o[2]) + fs, o[3]))
+            elif o[0] == "rvalue" and o[1]["k"] == "agg" and o[1].get("ak") in ("closure", "tuple") and isinstance(fs[0], int) and fs[0] < len(o[1]["ops"]) and depth > 0:
+                # a capture read back from the closure value (a closure body spliced into its parent, lib.inline) / a tuple element
+                for o2 in origins(body, o[1]["ops"][fs[0]], depth - 1, _seen):
+                    out.append(("place", o2[1], tuple(o2[2]) + tuple(fs[1:]), o2[3]) if o2[0] == "place" else o2)
             else:
                 out.append(o)
         return out
